@@ -311,5 +311,5 @@ MANIFEST = {
                   "and startup code; every build of a history is judged by the staleness oracle "
                   "and the last one also differentially.",
     "level_note": "steps are simulated in-process (launch_command substituted); hash threads "
-                  "are real; sub-plan nesting depth 1",
+                  "are real; plans nested up to three levels",
 }
